@@ -311,3 +311,141 @@ theorem nextTokenT_progress (T : Tables) (head : Bytes) :
 theorem nextToken_progress (head : Bytes) :
     (nextToken head).1 = invalidId genTables ∨ 0 < (nextToken head).2.length :=
   nextTokenT_progress genTables head
+
+/-! ## the scanner loop -/
+
+theorem prefix_drop {t s : Bytes} (h : t <+: s) : t ++ s.drop t.length = s := by
+  obtain ⟨r, rfl⟩ := h
+  simp
+
+theorem stepLoc_text (T : Tables) (l : Loc) (id : Nat) (text : Bytes) : (stepLoc T l id text).1.text = text := by
+  unfold stepLoc
+  simp only
+  split
+  · rfl
+  · split <;> rfl
+
+theorem stepLoc_id (T : Tables) (l : Loc) (id : Nat) (text : Bytes) : (stepLoc T l id text).1.id = id := by
+  unfold stepLoc
+  simp only
+  split
+  · rfl
+  · split <;> rfl
+
+theorem stepLoc_line1 (T : Tables) (l : Loc) (id : Nat) (text : Bytes) : (stepLoc T l id text).1.line = l.line := by
+  unfold stepLoc
+  simp only
+  split
+  · rfl
+  · split <;> rfl
+
+theorem lexRawFuel_zero (T : Tables) (src : Bytes) (l : Loc) : lexRawFuel T 0 src l = ([], src) := by
+  simp [lexRawFuel]
+
+theorem lexRawFuel_nil (T : Tables) (f : Nat) (l : Loc) : lexRawFuel T f [] l = ([], []) := by
+  cases f <;> simp [lexRawFuel]
+
+theorem lexRawFuel_cons (T : Tables) (f : Nat) (c : UInt8) (r : Bytes) (l : Loc) :
+    lexRawFuel T (f + 1) (c :: r) l =
+      if stops T (nextTokenT T (c :: r)).1 then
+        ([(stepLoc T l (nextTokenT T (c :: r)).1 (nextTokenT T (c :: r)).2).1],
+         (c :: r).drop (nextTokenT T (c :: r)).2.length)
+      else
+        ((stepLoc T l (nextTokenT T (c :: r)).1 (nextTokenT T (c :: r)).2).1 ::
+           (lexRawFuel T f ((c :: r).drop (nextTokenT T (c :: r)).2.length)
+              (stepLoc T l (nextTokenT T (c :: r)).1 (nextTokenT T (c :: r)).2).2).1,
+         (lexRawFuel T f ((c :: r).drop (nextTokenT T (c :: r)).2.length)
+              (stepLoc T l (nextTokenT T (c :: r)).1 (nextTokenT T (c :: r)).2).2).2) := by
+  simp only [lexRawFuel]
+
+/-- **reconstruction**: the texts of all tokens (SKIP and COMMENT ones
+included), in order, followed by the unconsumed rest, are the input — for any
+fuel. -/
+theorem lexRawFuel_reconstructs (T : Tables) : ∀ (f : Nat) (src : Bytes) (l : Loc),
+    ((lexRawFuel T f src l).1.map Tok.text).flatten ++ (lexRawFuel T f src l).2 = src := by
+  intro f
+  induction f with
+  | zero => intro src l; simp [lexRawFuel_zero]
+  | succ f ih =>
+    intro src l
+    cases src with
+    | nil => simp [lexRawFuel_nil]
+    | cons c r =>
+      rw [lexRawFuel_cons]
+      have hp := prefix_drop (nextTokenT_prefix T (c :: r))
+      split
+      · simpa [stepLoc_text] using hp
+      · simp only [List.map_cons, List.flatten_cons, stepLoc_text, List.append_assoc]
+        rw [ih]
+        exact hp
+
+/-- an iteration after which the loop goes on has consumed at least one byte
+(given that the constants SKIP and COMMENT differ from INVALID) -/
+theorem not_stops_progress (T : Tables) (hS : skipId T ≠ invalidId T) (hC : commentId T ≠ invalidId T)
+    (s : Bytes) (h : ¬ stops T (nextTokenT T s).1 = true) : 0 < (nextTokenT T s).2.length := by
+  rcases nextTokenT_progress T s with hi | hp
+  · exfalso
+    apply h
+    unfold stops
+    rw [hi]
+    simp only [bne_iff_ne, ne_eq, Bool.and_eq_true, beq_self_eq_true, and_true]
+    exact ⟨fun e => hS e.symm, fun e => hC e.symm⟩
+  · exact hp
+
+/-- **the fuel is never the reason the loop stops**: any two fuels above the
+length of the source give the same result. -/
+theorem lexRawFuel_fuel (T : Tables) (hS : skipId T ≠ invalidId T) (hC : commentId T ≠ invalidId T) :
+    ∀ (f g : Nat) (src : Bytes) (l : Loc), src.length < f → src.length < g →
+      lexRawFuel T f src l = lexRawFuel T g src l := by
+  intro f
+  induction f with
+  | zero => intro g src l h; omega
+  | succ f ih =>
+    intro g src l hf hg
+    cases g with
+    | zero => omega
+    | succ g =>
+      cases src with
+      | nil => simp [lexRawFuel_nil]
+      | cons c r =>
+        rw [lexRawFuel_cons, lexRawFuel_cons]
+        split
+        · rfl
+        · rename_i hs
+          have hp := not_stops_progress T hS hC (c :: r) hs
+          have hlen : ((c :: r).drop (nextTokenT T (c :: r)).2.length).length < (c :: r).length := by
+            simp only [List.length_drop, List.length_cons]
+            omega
+          rw [ih g _ _ (by simp only [List.length_cons] at hf hlen ⊢; omega)
+                (by simp only [List.length_cons] at hg hlen ⊢; omega)]
+
+/-- with enough fuel, bytes are left unconsumed only after an INVALID token,
+which is then the last one -/
+theorem lexRawFuel_rest (T : Tables) (hS : skipId T ≠ invalidId T) (hC : commentId T ≠ invalidId T) :
+    ∀ (f : Nat) (src : Bytes) (l : Loc), src.length < f → (lexRawFuel T f src l).2 ≠ [] →
+      ∃ pre t, (lexRawFuel T f src l).1 = pre ++ [t] ∧ t.id = invalidId T := by
+  intro f
+  induction f with
+  | zero => intro src l h; omega
+  | succ f ih =>
+    intro src l hf hne
+    cases src with
+    | nil => simp [lexRawFuel_nil] at hne
+    | cons c r =>
+      rw [lexRawFuel_cons] at hne ⊢
+      split
+      · rename_i hs
+        refine ⟨[], _, rfl, ?_⟩
+        rw [stepLoc_id]
+        unfold stops at hs
+        simp only [Bool.and_eq_true, beq_iff_eq] at hs
+        exact hs.2
+      · rename_i hs
+        simp only [hs, Bool.false_eq_true, ↓reduceIte] at hne
+        have hp := not_stops_progress T hS hC (c :: r) hs
+        have hlen : ((c :: r).drop (nextTokenT T (c :: r)).2.length).length < f := by
+          simp only [List.length_drop, List.length_cons] at hf ⊢
+          omega
+        obtain ⟨pre, t, he, hid⟩ := ih _ _ hlen hne
+        exact ⟨(stepLoc T l (nextTokenT T (c :: r)).1 (nextTokenT T (c :: r)).2).1 :: pre, t,
+          by simp only [he, List.cons_append], hid⟩
